@@ -6,11 +6,13 @@ pub enum BlobType { Tree, Data }
 pub struct BlobLocation { pub offset: u32, pub length: u32 }
 pub struct IndexBlob { pub id: BlobId, pub tpe: BlobType, pub location: BlobLocation }
 pub struct IndexPack { pub blobs: Vec<IndexBlob> }
-pub trait DecryptWriteBackend {}
+pub trait DecryptWriteBackend: Clone {}
 
 // std BTreeSet<(BlobType, BlobId)> as a mathematical set (ASSUMED contract of insert / contains)
 pub struct BTreeSet<T> { pub s: Ghost<Set<T>> }
 impl<T> BTreeSet<T> {
+    #[verifier::external_body]
+    pub fn new() -> (r: Self) ensures r.s@ == Set::<T>::empty(), { unimplemented!() }
     #[verifier::external_body]
     pub fn insert(&mut self, x: T) -> (r: bool) ensures final(self).s@ == old(self).s@.insert(x), { unimplemented!() }
     #[verifier::external_body]
@@ -22,7 +24,15 @@ impl IndexFile {
     #[verifier::external_body]
     pub fn add(&mut self, p: IndexPack, delete: bool) { unimplemented!() }
 }
+impl IndexFile {
+    #[verifier::external_body]
+    pub fn default() -> (r: IndexFile) { unimplemented!() }
+}
 pub struct SystemTime { pub _opaque: u64 }
+impl SystemTime {
+    #[verifier::external_body]
+    pub fn now() -> (r: SystemTime) { unimplemented!() }
+}
 // `self.created.elapsed().unwrap_or_else(..)` compared with MAX_AGE: an arbitrary boolean
 #[verifier::external_body]
 pub fn vtoo_old(t: &SystemTime) -> (r: bool) { unimplemented!() }
